@@ -12,7 +12,7 @@ use crate::bridge::{self, macro_split, Cfg, ListMask, ALL_MODES};
 use crate::explore::{Ctx, Stats, Tier};
 use crate::gen::{self, Family, Part, SIGMA10, SIGMA8};
 use crate::refmodel::decoder;
-use crate::refmodel::encoder::{ascii_size, feasible, Search, Tier as RTier};
+use crate::refmodel::encoder::{ascii_size, feasible, materialise, witness, Search, Tier as RTier};
 use crate::refmodel::symbols::SYMBOLS;
 
 /// Iteration order of a list as the crate defines it (reference row indices).
@@ -42,6 +42,23 @@ fn body_and_header<'a>(cfg: &Cfg, input: &'a [u8]) -> (&'a [u8], usize) {
     }
     h += 0;
     (input, h)
+}
+
+/// The codewords the encoder writes before the data: FNC1, macro, ECI.
+fn header_codewords(cfg: &Cfg, input: &[u8]) -> Vec<u8> {
+    let mut h = Vec::new();
+    if cfg.fnc1 {
+        h.push(232);
+    } else if cfg.macros {
+        if let Some((cw, _)) = macro_split(input) {
+            h.push(cw);
+        }
+    }
+    if let Some(e) = cfg.eci {
+        h.push(241);
+        h.extend(crate::refmodel::decoder::write_eci(e));
+    }
+    h
 }
 
 /// Smallest feasible capacity among the capacities of the list, per tier.
@@ -129,9 +146,38 @@ pub fn eval(cfg: &Cfg, input: &[u8], strong: bool, st: &mut Stats) -> Result<(),
         st.count("strong_oracle_computed");
         let verdict = |msg: String, st: &mut Stats| -> Result<(), String> {
             if strong {
-                Err(msg)
+                // the claim "a legal encoding fits" must be backed by a concrete stream which the
+                // reference decoder AND the crate's own decoder read back as the input
+                let n = need.expect("verdict needs a feasible capacity");
+                let mut s2 = Search::default();
+                let stream = witness(body, cfg.modes, n, h, RTier::DeFacto, &mut s2)
+                    .ok_or_else(|| "no witness".to_string())
+                    .and_then(|segs| materialise(&header_codewords(cfg, input), body, &segs, n).map(|cw| (segs, cw)));
+                match stream {
+                    Ok((segs, cw)) => {
+                        let by_ref = decoder::decode(&cw).map(|p| p.out == input).unwrap_or(false);
+                        let by_crate = cfg.eci.is_some() || crate::explore::guarded(|| datamatrix::data::decode_data(&cw)).ok().and_then(|r| r.ok()).map(|o| o == input).unwrap_or(false);
+                        if by_ref && by_crate {
+                            st.count("witness_streams_validated");
+                            Err(format!("{}; witness {:?} (decodes to the input with the reference decoder and with data::decode_data), segments {:?}", msg, cw, segs.iter().map(|g| (g.mode.name(), g.to - g.from, g.form)).collect::<Vec<_>>()))
+                        } else {
+                            st.count("witness_not_validated_no_verdict");
+                            Ok(())
+                        }
+                    }
+                    Err(_) => {
+                        st.count("witness_not_validated_no_verdict");
+                        Ok(())
+                    }
+                }
             } else {
                 st.count("non_minimal_vs_reference_outside_verdict_space");
+                if cfg.modes & 1 == 1 {
+                    st.count("non_minimal_vs_reference_outside_verdict_space_with_ascii");
+                    if std::env::var("C10_DEBUG").is_ok() {
+                        eprintln!("NON-MINIMAL in={} modes={:06b} list={} :: {}", crate::explore::hex(input), cfg.modes, cfg.list.to_json(), msg);
+                    }
+                }
                 Ok(())
             }
         };
@@ -202,6 +248,31 @@ pub fn eval(cfg: &Cfg, input: &[u8], strong: bool, st: &mut Stats) -> Result<(),
     })
 }
 
+/// ES-G inputs.
+pub fn es_g(kmax: usize) -> Family {
+    let units: Vec<&[u8]> = vec![b"A", b"a", b"*A^ ", b"A>*", &[0x80], b"1", b"AB CD"];
+    let mut tails: Vec<Vec<u8>> = (0..=6).map(|j| vec![b'1'; j]).collect();
+    for j in 1..=3 {
+        tails.push(vec![b'A'; j]);
+        tails.push(vec![b'a'; j]);
+        tails.push(vec![b'*'; j]);
+    }
+    tails.push(b"12A".to_vec());
+    tails.push(b"A12".to_vec());
+    tails.push(vec![0x80]);
+    let mut out = Vec::new();
+    for u in &units {
+        for k in 1..=kmax {
+            for t in &tails {
+                let mut v: Vec<u8> = u.iter().cycle().take(k).cloned().collect();
+                v.extend(t);
+                out.push(v);
+            }
+        }
+    }
+    Family::list(out)
+}
+
 struct SPart {
     part: Part,
     strong: bool,
@@ -261,6 +332,9 @@ fn parts(tier: Tier) -> Vec<SPart> {
             strong: true,
         });
     }
+    // ES-G: a run of k characters native to one mode followed by a short tail of digits / letters:
+    // stresses the end-of-data cost models of the planner at every residue of every small capacity
+    v.push(SPart { part: Part { name: "ES-G mode runs + digit/letter tails", family: es_g(32), cfgs: gen::cfgs(&[ALL_MODES], &[d, a], &on, &off) }, strong: std::env::var("C10_ESG_WEAK").is_err() });
     // weak verdict space (strong oracle computed and reported, but it does not decide)
     let mq = gen::modes_quick();
     v.push(SPart { part: Part { name: "W: ES-B sigma10<=4 x mode sets without ASCII", family: Family::Over { alpha: SIGMA10.to_vec(), min: 0, max: 4 }, cfgs: gen::cfgs(&gen::modes_all(), &[d, sq(12, 12)], &on, &off) }, strong: false });
